@@ -8,8 +8,8 @@ package main
 // (decTracked) each branch condition -- `if`, `for` condition, `switch` case, the result of a
 // small predicate function, the body of a filter closure -- is translated, in SOURCE ORDER,
 // into a small expression language (dexp, coq/Engine/Decisions.v) over variables named by a
-// NORMALISED ACCESS PATH ("Last.status", "History.len", "revsorted(History)[0].status",
-// "arg2.len", "each(sorted(History)).version") and the constants of pkg/release/v1 (status,
+// NORMALISED ACCESS PATH ("Last.status", "len(History)", "revsorted(History)[0].status",
+// "len(arg2)", "each(sorted(History)).version") and the constants of pkg/release/v1 (status,
 // hook event, delete policy, resolved to their string values).  Conditions made only of
 // option flags and error tests are dropped (they belong to the skeleton); everything else is
 // a SITE.  What the translator does not understand becomes `DUnknown "<source text>"`, which
@@ -652,7 +652,7 @@ func (f *decFn) tr0(e ast.Expr) *dx {
 		// len(x)
 		if id, ok := v.Fun.(*ast.Ident); ok && id.Name == "len" && len(v.Args) == 1 {
 			if p, ok := f.path(v.Args[0]); ok && p != "" {
-				return &dx{op: "Var", s: p + ".len", ty: "TN"}
+				return &dx{op: "Var", s: "len(" + p + ")", ty: "TN"}
 			}
 			return dUnknown(f.text(e))
 		}
